@@ -33,6 +33,9 @@ class TypeNormalizer:
         if isinstance(t, str):
             t = eval(t, getattr(fn, "__globals__", {}))
 
+        if isinstance(t, typing._AnnotatedAlias):
+            return self(t.__origin__, fn)
+
         if t is type:
             t = type[object]
         elif t is typing.Any:
@@ -41,8 +44,6 @@ class TypeNormalizer:
             t = object
         elif t in UnionTypes:
             return type[t]
-        elif isinstance(t, typing._AnnotatedAlias):
-            t = t.__origin__
 
         origin = getattr(t, "__origin__", None)
         if UnionType and isinstance(t, UnionType):
